@@ -17,17 +17,17 @@ ID = "C16"
 RULE = (
     "stacks = all sequences of depth 1..3 (quick) / 1..4 (thorough) over {counting, cutoff(0), cutoff(1), cutoff(2), cutoff(3), precision(opt=0, "
     "eps=1/2), stats} around a FunctionProblem, both directions; programs = all sequences of 5 (quick; 6 for depth <= 3 in thorough) evaluate calls "
-    "whose objective values come from {optimum, optimum +- 1/2 (exactly on the precision boundary), 3/4, far, +inf, -inf (the objective itself may return the value a cutoff wrapper uses as sentinel)}; after every call the returned "
+    "whose objective values come from {optimum, optimum +- 1/2 (exactly on the precision boundary), 3/4, far, +inf, -inf, NaN (the objective itself may return the value a cutoff wrapper uses as sentinel)}; after every call the returned "
     "value, every wrapper's counter, ETA, hit flag, the verdict of SingularProblemPrecisionReached, bounds, maximize, worse_than, "
     "get_function_problem and the number of real objective invocations are compared with the reference model; states = distinct (stack, "
     "counter vector, flags), transitions = calls; non-trivial = a sequence in which a cutoff refused or the precision was hit more than once"
 )
-ASSUMPTIONS = ["objective values from the stated alphabet (no NaN)", "durations of the stats wrapper are not compared, only their number"]
+ASSUMPTIONS = ["objective values from the stated alphabet (incl. +-inf and NaN)", "durations of the stats wrapper are not compared, only their number"]
 EXPLANATION = "explicit-state exploration of the wrapper stack as a state machine driven by evaluate calls; the implementation is the transition function"
 
 KINDS = ["count", "cut0", "cut1", "cut2", "cut3", "prec", "stats"]
 VALS_MIN = [0.0, 0.5, -0.5, 0.75, 10.0, math.inf]
-VALS_T4 = [0.0, 0.5, 0.75, math.inf, -math.inf]
+VALS_T4 = [0.0, 0.5, 0.75, math.inf, -math.inf, math.nan]
 
 
 class RefWrapper:
@@ -114,8 +114,10 @@ def run_stack(res, kinds, maximize, seqlen, vals, only_seq=None):
                 refused = True
             if abs(v) <= 0.5:
                 hits += 1
+            if v != v:
+                refused = True  # counts as non-trivial: an undefined objective value passed through the stack
             bad = None
-            if not (got == want):
+            if not (got == want or (got != got and want != want)):
                 bad = ("C16/returned-value", f"evaluate returned {got!r}, reference {want!r}")
             elif counter[0] != rcalls[0]:
                 bad = ("C16/objective-invocations", f"objective invoked {counter[0]} times, reference {rcalls[0]}")
@@ -174,7 +176,7 @@ def units(tier, seed):
     if tier == "quick":
         ss = stacks(3)
         for i in range(0, len(ss), 10):
-            us.append({"stacks": ss[i : i + 10], "len": 4, "vals": VALS_MIN + [-math.inf]})
+            us.append({"stacks": ss[i : i + 10], "len": 4, "vals": VALS_MIN + [-math.inf, math.nan]})
             us.append({"stacks": ss[i : i + 10], "len": 5, "vals": [0.0, 0.5, -0.5, 0.75]})
     else:
         ss = stacks(3)
